@@ -872,8 +872,9 @@ fn c11(scn: &Scenario, _rf: &Ref, ex: &Exec, out: &mut Vec<Finding>) {
             }
         }
     }
-    // (c) aligned blocks of the original source are processed by one thread, and blocks are started in order
-    if let Some(fr) = ex.rec.frames.first() {
+    // (c) aligned blocks of the original source are processed by one thread (element ids are positions only for the
+    // sequence sources, not for the std collections, which are left to (a) and (d))
+    if let Some(fr) = ex.rec.frames.first().filter(|_| !scn.src.is_collection()) {
         let flog = &log[fr.log_begin..fr.log_end.min(log.len())];
         let mut owner: BTreeMap<usize, u16> = BTreeMap::new();
         for e in flog {
